@@ -69,11 +69,22 @@ func Transcript(seed uint64, k int, bls bool, sigIn, sigOut string) (map[string]
 	var exported []Sig
 	for i := 0; i < k; i++ {
 		rnd := choice.New(choice.SeedFor(seed, "xcfg", i))
-		t.hashes(i, rnd)
-		t.prg(i, rnd)
-		exported = append(exported, t.ecdsa(i, rnd, sigs)...)
+		// a panic inside a section is part of that section's transcript (it then differs from
+		// the configurations that do not panic), never a reason for the program to die
+		guard := func(f func()) {
+			defer func() {
+				if p := recover(); p != nil {
+					t.addf("PANIC", "%v", p)
+					t.end()
+				}
+			}()
+			f()
+		}
+		guard(func() { t.hashes(i, rnd) })
+		guard(func() { t.prg(i, rnd) })
+		guard(func() { exported = append(exported, t.ecdsa(i, rnd, sigs)...) })
 		if bls {
-			t.bls(i, rnd)
+			guard(func() { t.bls(i, rnd) })
 			// simulated multi-party runs: every message byte, callback and key is in the event hash
 			for _, p := range []struct {
 				e    engine.Engine
@@ -240,6 +251,67 @@ func (t *tr) ecdsa(i int, rnd *choice.Src, sigs []Sig) []Sig {
 			t.addf("formatcheck", "%v %v", fc, err)
 		}
 	}
+	// error paths of the non-BLS functionality and their classification by the exported error
+	// predicates that exist in every build (a predicate that panics in one configuration only
+	// is a result that depends on the configuration)
+	classify := func(label string, err error) {
+		r := func() (s string) {
+			defer func() {
+				if p := recover(); p != nil {
+					s = fmt.Sprintf("PANIC while classifying: %v", p)
+				}
+			}()
+			return fmt.Sprintf("nil=%v input=%v nilhasher=%v hashersize=%v", err == nil, crypto.IsInvalidInputsError(err), crypto.IsNilHasherError(err), crypto.IsInvalidHasherSizeError(err))
+		}()
+		t.addf("errclass."+label, "%s", r)
+	}
+	for _, alg := range []crypto.SigningAlgorithm{crypto.ECDSAP256, crypto.ECDSASecp256k1} {
+		_, err := crypto.GeneratePrivateKey(alg, rnd.Bytes(31))
+		classify("gen.shortseed", err)
+		_, err = crypto.DecodePrivateKey(alg, rnd.Bytes(31))
+		classify("decode.sk.len", err)
+		_, err = crypto.DecodePrivateKey(alg, make([]byte, 32))
+		classify("decode.sk.zero", err)
+		_, err = crypto.DecodePublicKey(alg, rnd.Bytes(64))
+		classify("decode.pk.random", err)
+		_, err = crypto.DecodePublicKey(alg, rnd.Bytes(10))
+		classify("decode.pk.len", err)
+		_, err = crypto.DecodePublicKeyCompressed(alg, rnd.Bytes(33))
+		classify("decode.pkc.random", err)
+		sk, err := crypto.GeneratePrivateKey(alg, rnd.Bytes(40))
+		classify("gen.ok", err)
+		if err == nil {
+			_, err = sk.Sign([]byte("m"), nil)
+			classify("sign.nilhasher", err)
+			if k, e := hash.NewKMAC_128(rnd.Bytes(16), nil, 16); e == nil {
+				_, err = sk.Sign([]byte("m"), k)
+				classify("sign.shorthasher", err)
+				_, err = sk.PublicKey().Verify(make([]byte, 64), []byte("m"), k)
+				classify("verify.shorthasher", err)
+			}
+			_, err = sk.PublicKey().Verify(make([]byte, 64), []byte("m"), nil)
+			classify("verify.nilhasher", err)
+			_, err = sk.PublicKey().Verify(rnd.Bytes(63), []byte("m"), hash.NewSHA2_256())
+			classify("verify.badlen", err)
+		}
+		_, err = crypto.SignatureFormatCheck(alg, rnd.Bytes(65))
+		classify("formatcheck.len", err)
+	}
+	_, err := hash.NewKMAC_128(rnd.Bytes(15), nil, 32)
+	classify("kmac.shortkey", err)
+	_, err = random.NewChacha20PRG(rnd.Bytes(31), nil)
+	classify("prg.shortseed", err)
+	_, err = random.NewChacha20PRG(rnd.Bytes(32), rnd.Bytes(13))
+	classify("prg.longcustomizer", err)
+	_, err = random.RestoreChacha20PRG(rnd.Bytes(51))
+	classify("prg.restore.len", err)
+	if p, e := random.NewChacha20PRG(rnd.Bytes(32), nil); e == nil {
+		_, err = p.Permutation(-1)
+		classify("prg.perm.negative", err)
+		_, err = p.SubPermutation(3, 4)
+		classify("prg.subperm.m>n", err)
+	}
+	classify("nil", nil)
 	// signatures exported by the default build: every configuration must accept them
 	for _, s := range sigs {
 		alg := []crypto.SigningAlgorithm{crypto.ECDSAP256, crypto.ECDSASecp256k1}[s.Alg]
